@@ -161,10 +161,8 @@ func lookupTable(c *Ctx) {
 // argument of the self-check line, over the shapes of a constraint.
 func representativeTable(c *Ctx) {
 	run, prog := c.Run, c.Prog
-	var fn *types.Func
-	if f := prog.LookupFunc(load.PkgMoq, "explicitConstraintType"); f != nil {
-		fn = f
-	}
+	// by role: the moq function whose result fills TypeParamData.Constraint
+	fn := tmpl.CalleeOfField(prog, "TypeParamData", "Constraint")
 	if fn == nil {
 		run.Undecided("G-REPR", "role", "pkg/moq/moq.go", "the function choosing the representative type argument (explicitConstraintType) was not found")
 		return
@@ -196,6 +194,11 @@ func representativeTable(c *Ctx) {
 			},
 			"Underlying": tmeth(nil),
 		}
+		sq := &interp.Seq{}
+		for _, e := range embedded {
+			sq.Elems = append(sq.Elems, e)
+		}
+		t.Methods["EmbeddedTypes"] = tmeth(sq)
 		t.Methods["Underlying"] = tmeth(t)
 		return t
 	}
@@ -220,7 +223,14 @@ func representativeTable(c *Ctx) {
 		vals, errs := allPaths(prog, func(m *interp.Machine) (interp.Value, error) {
 			tmpl.InstallTypesModels(m, prog)
 			errModels(m)
-			return m.CallFunc(token.NoPos, fn, nil, []interp.Value{vr})
+			// the constraint is handed over wrapped in a variable (types.NewParam) or as the type itself
+			var arg interp.Value = vr
+			if sig, ok := fn.Type().(*types.Signature); ok && sig.Params().Len() == 1 {
+				if _, isIface := sig.Params().At(0).Type().Underlying().(*types.Interface); isIface {
+					arg = tc.cons
+				}
+			}
+			return m.CallFunc(token.NoPos, fn, nil, []interp.Value{arg})
 		})
 		ok := true
 		var got interp.Value
@@ -267,7 +277,30 @@ func representativeTable(c *Ctx) {
 // parseTable: decision table of the argument parser "Interface[:Name]".
 func parseTable(c *Ctx) {
 	run, prog := c.Run, c.Prog
-	fn := prog.LookupFunc(load.PkgMoq, "parseInterfaceName")
+	// by role: the one function of pkg/moq that turns a string into two strings
+	var fn *types.Func
+	if pk := prog.ByPath[load.PkgMoq]; pk != nil {
+		n := 0
+		sc := pk.Types.Scope()
+		for _, name := range sc.Names() {
+			f, ok := sc.Lookup(name).(*types.Func)
+			if !ok {
+				continue
+			}
+			sig := f.Type().(*types.Signature)
+			isStr := func(t types.Type) bool {
+				b, ok := t.Underlying().(*types.Basic)
+				return ok && b.Kind() == types.String
+			}
+			if sig.Params().Len() == 1 && sig.Results().Len() == 2 && isStr(sig.Params().At(0).Type()) && isStr(sig.Results().At(0).Type()) && isStr(sig.Results().At(1).Type()) {
+				fn = f
+				n++
+			}
+		}
+		if n != 1 {
+			fn = prog.LookupFunc(load.PkgMoq, "parseInterfaceName")
+		}
+	}
 	if fn == nil {
 		run.Undecided("G-PARSE", "role", "pkg/moq/moq.go", "parseInterfaceName not found")
 		return
